@@ -302,6 +302,27 @@ def run_subspace(args):
                 raise E.EngineFault(f"concrete re-run raised {err}; values={values} choices={choices}")
             return obs
 
+        big_found = []
+
+        def big_validate(values, choices, sym_obs, label):
+            # a solver-chosen LARGE model of the path condition, run on the un-instrumented library
+            ce, obs, err = _concrete_run(mod, sp, values, choices)
+            for v in ce.violations:
+                if not any(b["key"] == v.key for b in big_found):
+                    big_found.append(dict(v.as_dict(), confirmed=True, big_model=label))
+            if ce.violations:
+                return
+            if err is not None:
+                raise E.EngineFault(f"concrete re-run with a large model raised {err}; values={values} choices={choices}")
+            conc_obs = [(l, E._norm(v)) for l, v in (obs or [])]
+            if conc_obs != sym_obs:
+                raise E.EngineFault(f"symbolic/concrete divergence under a large model ({label}): values={values} choices={choices} "
+                                    f"sym={str(sym_obs)[:300]} conc={str(conc_obs)[:300]}")
+
+        if getattr(mod, "big_models", lambda sp_: False)(sp):
+            eng.big_validate = big_validate
+            eng.big_every = getattr(mod, "BIG_EVERY", 8)
+
         degraded = []
 
         def harness(e):
@@ -351,6 +372,7 @@ def run_subspace(args):
                 found = concrete_grid(mod, sp, eng, time.time() + 60)
                 res["violations"].extend(found)
                 eng.stats["concrete_grid_runs"] = eng.stats.get("concrete_grid_runs", 0) + 1
+            res["violations"].extend(big_found)
             # confirm candidate violations by concrete replay on the unmodified library
             per_key = {}
             for v in eng.violations:
